@@ -44,15 +44,27 @@ def run_op(op):
         for e in op["entries"]:
             entries.append((dec(e["t"]), dec(e["b"])) if e.get("large") is None else (dec(e["t"]), dec(e["b"]), e["large"]))
         return _norm(make_readable_bulk(entries, mode=op["mode"], very_readable=op["very"]))
+    if kind == "valid":
+        from cm_colors import Color
+
+        out = []
+        for x in op["xs"]:
+            c = Color(dec(x))
+            out.append([c.is_valid, list(c.rgb) if c.rgb else None])
+        return out
     if kind == "cli":
         from click.testing import CliRunner
 
         from cm_colors.cli.main import main as cli_main
 
         with Scratch("c15cli_") as sc:
-            with open(os.path.join(sc.path, "s.css"), "w", encoding="utf-8") as f:
-                f.write(SHEETS[op["sheet"]])
-            args = ["s.css", "--mode", str(op["mode"])] + (["--premium"] if op["premium"] else [])
+            if op["sheet"] == "none":
+                target = "."  # a directory without any stylesheet
+            else:
+                target = "s.css"
+                with open(os.path.join(sc.path, "s.css"), "w", encoding="utf-8") as f:
+                    f.write(SHEETS[op["sheet"]])
+            args = [target, "--mode", str(op["mode"])] + (["--premium"] if op["premium"] else []) + (["--default-bg", op["default_bg"]] if op.get("default_bg") else [])
             res = CliRunner().invoke(cli_main, args)
             outp = os.path.join(sc.path, "s_cm.css")
             content = open(outp, encoding="utf-8").read() if os.path.exists(outp) else None
@@ -66,5 +78,49 @@ def op_key(op):
     return json.dumps(op, sort_keys=True)
 
 
+def cold_threads(ops, nthreads=8):
+    """The very first library calls of this interpreter, made concurrently from several threads released by a barrier."""
+    import threading
+
+    # importing is not "first use": modules are loaded up front so that the import lock does not line the threads up
+    import cm_colors  # noqa: F401
+    from cm_colors.core import color_metrics, color_parser, contrast, conversions
+
+    def primitives(k):
+        c1, c2 = (k * 29 % 256, 17, 200), (40, k * 53 % 256, 90)
+        return [color_metrics.calculate_delta_e_2000(c1, c2), list(conversions.rgb_to_lab(c1)), list(conversions.rgb_to_oklch(c2)),
+                contrast.calculate_relative_luminance(c1), list(color_parser.parse_color_to_rgb("rebeccapurple")),
+                list(color_parser.parse_color_to_rgb(f"hsl({k * 40}, 50%, 40%)")), list(conversions.oklch_to_rgb((0.5, 0.1, k * 45.0)))]
+
+    results = [None] * len(ops)
+    prim = [None] * nthreads
+    errors = []
+    barrier = threading.Barrier(nthreads)
+    sys.setswitchinterval(1e-6)
+
+    def worker(k):
+        try:
+            barrier.wait(timeout=30)
+            prim[k] = primitives(k)  # the very first calls into the library, all threads at once
+            for i in range(k, len(ops), nthreads):
+                results[i] = run_op(ops[i])
+        except Exception as e:  # noqa: BLE001
+            errors.append(f"{type(e).__name__}: {e}")
+
+    ths = [threading.Thread(target=worker, args=(k,)) for k in range(nthreads)]
+    for t in ths:
+        t.start()
+    for t in ths:
+        t.join(timeout=300)
+    for k in range(nthreads):  # the same primitive calls again, now sequentially: they must agree
+        again = primitives(k)
+        if prim[k] is not None and prim[k] != again:
+            errors.append(f"primitive results of thread {k} differ from the sequential re-run: {prim[k]} vs {again}")
+    return {"results": results, "errors": errors}
+
+
 if __name__ == "__main__":
-    print(json.dumps(run_op(json.loads(sys.argv[1]))))
+    if sys.argv[1] == "--cold":
+        print(json.dumps(cold_threads(json.loads(sys.argv[2]))))
+    else:
+        print(json.dumps(run_op(json.loads(sys.argv[1]))))
